@@ -120,6 +120,9 @@ def run(ctx):
                 texts.append(prog[0][1])
         # make them fresh for this process: unique literal per round so that all threads race to create the same new nodes
         texts = [t.replace("'a'", "'a%d'" % rd).replace('"a"', '"a%d"' % rd) for t in texts]
+        # markers that share their root variable over different children, fresh every round: whoever interns a child first must not decide their order
+        texts += ["extra == 'aa%d' and extra == 'b%d'" % (rd, rd), "extra == 'aa%d' and extra == 'c%d'" % (rd, rd), "extra == 'aa%d' and extra == 'd%d'" % (rd, rd),
+                  "'w%d' in os_name and extra == 'f%d'" % (rd, rd), "'w%d' in os_name and extra == 'e%d'" % (rd, rd)]
         nthreads = 8 if quick else 16
         multi = fw.batch(h, [['stress', str(nthreads), '60000', [S(t) for t in texts]]], timeout=120)[0]
         single = fw.batch(h, [['stress', '1', '60000', [S(t) for t in texts]]], timeout=120)[0]
@@ -140,8 +143,12 @@ def run(ctx):
         for ti, obs in enumerate(multi[2]):
             if obs != ref:
                 j = next(i for i, (a, b) in enumerate(zip(obs, ref)) if a != b)
-                ctx.failure('thread %d observes something else than a sequential execution for marker %r' % (ti, texts[j]),
-                            dict(how, marker=texts[j], concurrent=pretty(obs[j])[:600], sequential=pretty(ref[j])[:600]))
+                if j >= len(texts):
+                    ctx.failure('thread %d sorts the markers it built in another order than a sequential execution does' % ti,
+                                dict(how, concurrent=dump(obs[j])[:300], sequential=dump(ref[j])[:300]))
+                else:
+                    ctx.failure('thread %d observes something else than a sequential execution for marker %r' % (ti, texts[j]),
+                                dict(how, marker=texts[j], concurrent=pretty(obs[j])[:600], sequential=pretty(ref[j])[:600]))
                 break
         if len(ctx.samples) < 3:
             ctx.sample({'threads': nthreads, 'markers': texts[:4]})
